@@ -11,10 +11,11 @@ def run(ctx, ps, gen_bad):
     fails, cov = seqprops.run(ctx, 'C04', ps, gen_bad)
     # crash images taken while a large file is being freed in the background (several transactions)
     n = 24 if ctx.quick else 400
-    wl = [('bigshrink', 0, 3000, True, n, ctx.seed * 4 + 0), ('bigshrink', 0, 3000, True, n, ctx.seed * 4 + 3)]
+    wl = [('bigshrink', 0, 3000, True, n, ctx.seed * 4 + 0), ('bigshrink', 0, 3000, True, n, ctx.seed * 4 + 3),
+          ('firstboot', 0, 3000, True, 2 * n, ctx.seed)]
     if not ctx.quick:
         wl += [('bigshrink', 0, 3000, True, n, ctx.seed * 4 + i) for i in (4, 5, 6, 7)] + [('crashmix', 60, 3000, True, 1500)]
-    f2, c2 = crashengine.run(ctx, 'C04', wl, own=r"wf=")
+    f2, c2 = crashengine.run(ctx, 'C04', wl, own=r"wf=|recovered-disk-differs")
     fails += f2
     cov['crash_images_during_background_free'] = c2['evaluations']
     cov['crash_images_passing_every_relation'] = c2['distinct_nontrivial']
